@@ -16,7 +16,7 @@ import json
 
 from sim import norm as N, spec as SP, world
 from sim.kernel import HarnessError, sha
-from sim.model import ModelPeptide
+from sim.model import ModelPeptide, condense_static, parse_static_rule
 from sim.props import base
 from sim.props.base import Env, RunBase
 
@@ -90,7 +90,7 @@ def gen_plan(S, index, tier):
     weights = {'copy': 3, 'rebuild': 2, 'field': 6, 'internal': 6, 'intervals': 2, 'charge': 1.5, 'pop': 3,
                'strip': 0.6, 'view': 3 if 'scribble' in faults else 0, 'argscr': 1.5 if 'reuse' in faults else 0,
                'roundtrip': 3, 'perturb': 4, 'reorder': 1.5, 'poke': 2 if 'poke' in faults else 0, 'seq': 0.7,
-               'moddict': 2.5}
+               'moddict': 2.5, 'condense': 2.0}
     if S.coin(0.5):   # swarm: drop some op kinds
         for k in S.sample(sorted(weights), S.randint(1, 5)):
             if k not in ('copy',):
@@ -186,6 +186,28 @@ def gen_plan(S, index, tier):
             events.append({'act': 'strip', 'obj': h, 'inplace': inplace})
             if inplace:
                 m.strip()
+        elif kind == 'condense':
+            # static rules with single-letter / terminal targets only (a target is used as a pattern by the library)
+            if not m.static or any(len(t) != 1 and t not in ('N-Term', 'C-Term')
+                                   for st in m.static for t in parse_static_rule(st[0])[1]):
+                # give the object a rule first, on every live object alike with some probability
+                rule = S.pick(['[Acetyl]@N-Term', '[57]@C', '[2][3]@C-Term', '[Phospho]@S,T,Y', '[1]@K,N-Term'])
+                targets = [h] if S.coin(0.5) else sorted(models)
+                for t_ in targets:
+                    events.append({'act': 'field', 'obj': t_, 'field': 'static', 'mods': [[rule, 1]], 'append': False,
+                                   'via': 'add', 'form': 'modlist'})
+                    _m_field(models[t_], 'static', [[rule, 1]], False)
+            inplace = S.coin(0.6)
+            ev = {'act': 'condense', 'obj': h, 'inplace': inplace}
+            if inplace:
+                condense_static(m)
+            elif nobj < 4:
+                h2 = f'X{nobj}'
+                nobj += 1
+                ev['out'] = h2
+                models[h2] = m.clone()
+                condense_static(models[h2])
+            events.append(ev)
         elif kind == 'view':
             events.append({'act': 'view', 'obj': h, 'view': S.pick(['dict', 'mod_dict', 'get_mods', 'copy',
                                                                      'pop_mods_fn', 'strip', 'slice_all']),
@@ -772,6 +794,25 @@ def _exec_event(run, ev_i, ev):
                                  f"STRIP: strip() result differs from 'residues and nothing else': {d}", ev_i):
                     return True
             edited = None
+    elif act == 'condense':
+        if ev['inplace']:
+            r = _lib(x.condense_static_mods, inplace=True)
+            condense_static(m)
+        else:
+            r = _lib(x.condense_static_mods, inplace=False)
+            exp = m.clone()
+            condense_static(exp)
+            if ev.get('out'):
+                run.live[ev['out']] = r
+                run.models[ev['out']] = exp
+            else:
+                d = ModelPeptide.from_nf(N.norm_ann(r)).diff(exp)
+                if d is not None:
+                    if run.violation('MODEL', 'condense', d[0].split('[')[0],
+                                     f"MODEL: condense_static_mods() result differs from the explicit form: {d}", ev_i):
+                        return True
+            edited = None
+        out.probes['condense_static'] += 1
     elif act == 'view':
         v = _view(pt, x, ev['view'])
         how = world.scribble(v, ev['k'], [])
@@ -1036,7 +1077,7 @@ RULE = ("seeded random editor history (8-25 events) on a generated source annota
         "with values as Mod | raw | list | caller-owned list, pokes at Mod objects, scribbles on returned views, "
         "single-field perturbations and reorderings. Distinct = distinct sequence of event kinds; non-trivial = at "
         "least two live objects and more than two oracle comparisons.")
-EXPECTED_PROBES = ['copies', 'rebuilds', 'rebuilds_from_one_kept_dict', 'roundtrips', 'single_field_perturbations', 'eq_negative_checked',
+EXPECTED_PROBES = ['copies', 'rebuilds', 'condense_static', 'rebuilds_from_one_kept_dict', 'roundtrips', 'single_field_perturbations', 'eq_negative_checked',
                    'eq_positive_checked', 'perturb-value', 'perturb-mult', 'perturb-drop', 'perturb-dup',
                    'perturb-position', 'perturb-ambiguous', 'perturb-global', 'reorder']
 ASSUMPTIONS = [
